@@ -287,7 +287,7 @@ def gen_py() -> Tuple[str, Dict[str, str]]:
         skel[f"bp.py:{cls}.process"] = skeleton_digest(fn, [itos[0].value, tests[0].test])
         return tk
 
-    tk1 = ito_of("Array", "array_ito", ["i", "ahead", "cap"], {"self.capacity": "cap"})
+    tk1 = ito_of("Array", "array_ito", ["i", "ahead", "cap", "ci"], {"self.capacity": "cap", "ctx.i": "ci"})
     tk2 = ito_of("MessageProcessor", "message_ito", ["i", "ahead"], {})
     if tk1 != tk2:
         raise Broken("translator: Array.process and MessageProcessor.process test `ito` differently", f"{tk1} / {tk2}")
